@@ -88,6 +88,17 @@ def project_extra(slot, item):
         slot["parts"] = proj.duration_parts(slot.get("out", ""), item.get("lang", "en"))
     elif slot.get("k") == "date":
         slot["pr"] = proj.date_printed(slot.get("out", ""), item.get("lang", "en"))
+    elif slot.get("k") == "datetime":
+        slot["pr"] = proj.datetime_printed(slot.get("out", ""), item.get("lang", "en"))
+    elif slot.get("k") == "num" and slot.get("nt") == "raw":
+        try:
+            x = float(slot["f"])
+            if x == int(x) and abs(x) < 2 ** 53:
+                slot["ts"] = proj.ts_split(int(x))
+        except Exception:
+            pass
+        import re as _re
+        slot["pr"] = proj.ts_split(int(slot["out"])) if _re.match(r"^-?\d+$", slot.get("out", "")) else [0, -1]
     elif slot.get("k") == "time":
         slot["pr"] = proj.time_printed(slot.get("out", ""))
 
